@@ -1,6 +1,7 @@
 import OxiVerif.Lemmas.C09Tree
 import OxiVerif.Lemmas.C09LibTree
 import OxiVerif.Lemmas.C09Names
+import OxiVerif.Lemmas.C09Fuel
 import OxiVerif.Model.ObjCanon
 set_option linter.unusedSimpArgs false
 /-!
@@ -61,6 +62,18 @@ theorem C09_lib_roundtrip_partial (v : Obj) (rest : List Nat) (fuel : Nat)
 example : SafeLib (sortDicts (.dict [([75], .arr [.int 1, .real [50, 46, 53, 48, 48, 48, 48, 48],
       .str [40, 41, 92, 13, 10], .ref 7 0, .name [65, 32, 47, 35, 0, 123]]), ([65, 32, 66], .hexstr [0, 255])]))
     [10, 62, 62, 10, 101, 110, 100, 111, 98, 106, 10] = true := by rfl
+
+/-- T1 for `PdfObject::parse` itself: the fuel it supplies (`2·|input| + 4`) always suffices, so
+    no fuel hypothesis is left. -/
+theorem C09_lib_parse_roundtrip (v : Obj) (rest : List Nat) (hs : SafeLib (sortDicts v) rest = true) :
+    ObjParser.parse (ser v ++ rest) = .ok (readBackLib (sortDicts v), rest) :=
+  lib_parse_roundtrip (sortDicts v) rest hs
+
+example : ObjParser.parse (ser (.dict [([75, 32], .arr [.int 1, .real [50, 46, 53, 48], .str [13, 40], .ref 7 0,
+      .name [47, 35]])]) ++ [10, 62, 62])
+    = .ok (.dict [([75, 32], .arr [.int 1, .real [50, 46, 53], .str [13, 40], .ref 7 0, .name [47, 35]])],
+      [10, 62, 62]) :=
+  C09_lib_parse_roundtrip _ _ (by rfl)
 
 /-- Strings on the library side need no hypothesis at all: `escape_pdf_string_bytes` followed by
     `read_literal_string` is the identity on **every** byte string. -/
@@ -230,6 +243,17 @@ theorem C09_spec_roundtrip_partial (v : Obj) (rest : List Nat) (fuel : Nat)
 example : SafeSpec (sortDicts (.dict [([75], .arr [.int 1, .real [50, 46, 53, 48, 48, 48, 48, 48],
       .str [40, 41, 92, 13, 10], .ref 7 0, .name [65, 32, 47, 35, 0, 195, 169, 255]]), ([65, 32, 66], .hexstr [0, 255])]))
     [10, 62, 62, 10, 101, 110, 100, 111, 98, 106, 10] = true := by rfl
+
+/-- T2 for `Spec.Syntax.read` itself (its own fuel `2·|input| + 2`) -/
+theorem C09_spec_read_roundtrip (v : Obj) (rest : List Nat) (hs : SafeSpec (sortDicts v) rest = true) :
+    Syntax.read (ser v ++ rest) = some (readBack (sortDicts v), rest) :=
+  spec_read_roundtrip (sortDicts v) rest hs
+
+example : Syntax.read (ser (.dict [([75, 32], .arr [.int 1, .real [50, 46, 53, 48], .str [13, 40], .ref 7 0,
+      .name [47, 35, 200]])]) ++ [10, 62, 62])
+    = some (.dict [([75, 32], .arr [.int 1, .real [50, 46, 53], .str [13, 40], .ref 7 0, .name [47, 35, 200]])],
+      [10, 62, 62]) :=
+  C09_spec_read_roundtrip _ _ (by rfl)
 
 /-- the same serializer writes objects inside object streams -/
 theorem C09_objstm_same_bytes (v : Obj) : serBuf v = ser v := rfl
